@@ -259,7 +259,7 @@ class Sym:
                 out.extend(self._block(node.body if val else node.orelse, s))
             return out
         if isinstance(node, ast.Raise):
-            st.notes.append('raise:' + ast.unparse(node.exc)[:60] if node.exc else 'raise')
+            st.notes.append('raise:' + (ast.unparse(node.exc)[:60] if node.exc else ''))
             return [(st, Record('raised', what=ast.unparse(node.exc) if node.exc else ''))]
         if isinstance(node, ast.For) and isinstance(node.iter, ast.Call) and ast.unparse(node.iter.func) == 'range' \
                 and len(node.iter.args) == 1 and isinstance(node.target, ast.Name) and not node.orelse:
